@@ -30,10 +30,13 @@ def msg_bytes(cid):
     return b'From: a@b.c\r\nX-Cid: %d\r\n\r\n' % cid + b'x' * cid + b'\r\n'
 
 
-def cid_of_size(size):
+def cid_of_size(size, lf=False):
     # len(header) depends on the number of digits of cid: solve by search (cids are small)
     for cid in range(0, 400):
-        if len(msg_bytes(cid)) == size:
+        b = msg_bytes(cid)
+        if lf:                          # maildir returns LF line endings (known finding D6)
+            b = b.replace(b'\r\n', b'\n')
+        if len(b) == size:
             return cid
     return -1
 
@@ -228,11 +231,13 @@ def canon_model(line):
 
 # ---------------------------------------------------------------- the real side
 class Real:
-    def __init__(self, nsess, subsystem=None):
+    def __init__(self, nsess, subsystem=None, backend='dict'):
         self.nsess = nsess
         self.subsystem = subsystem
         self.clients = []
         self.raw_log = []
+        self.kind = backend
+        self.base = None
 
     async def start(self):
         from pymap.imap import IMAPServer
@@ -240,8 +245,14 @@ class Real:
         if self.subsystem is not None:
             kw['subsystem'] = self.subsystem
         # the consecutive-BAD limit is C05/C06's subject; random programs here may contain long runs of refused commands
-        self.backend, self.config = await backends.make_dict(users=[('u', 'p', ())], bad_command_limit=None, **kw)
-        self.server = IMAPServer(self.backend.login, self.config)
+        if self.kind == 'dict':
+            self.backend, self.config = await backends.make_dict(users=[('u', 'p', ())], bad_command_limit=None, **kw)
+            login = self.backend.login
+        else:
+            self.base = backends.scratch_dir()
+            self.config, login = await backends.make_maildir(self.base, layout='++' if self.kind == 'maildir' else 'fs',
+                                                             users=[('u', 'p', ())], bad_command_limit=None, **kw)
+        self.server = IMAPServer(login, self.config)
         for i in range(self.nsess):
             c = wire.Client(self.server, fd=10 + i, name=f's{i}')
             await c.start()
@@ -275,7 +286,7 @@ class Real:
                 d = f[1]
                 fl, _ = canon_flags(d[b'FLAGS'])
                 day = int(d[b'INTERNALDATE'].val[:2])
-                out.append((int(d[b'UID'].val), fl, cid_of_size(int(d[b'RFC822.SIZE'].val)), day))
+                out.append((int(d[b'UID'].val), fl, cid_of_size(int(d[b'RFC822.SIZE'].val), lf=self.kind != 'dict'), day))
         await c.send(b'p LOGOUT\r\n')
         await c.finish()
         return sorted(out), recent
@@ -286,6 +297,8 @@ class Real:
                 await c.eof()
             except Exception:
                 pass
+        if self.base:
+            backends.rmtree(self.base)
 
 
 def sel_state(program_prefix, nsess):
@@ -299,9 +312,10 @@ def sel_state(program_prefix, nsess):
     return st
 
 
-async def run_real(nsess, program, subsystem=None, dumps=True):
-    """executes the program; returns (extended program with resolved picks and inserted probe NOOPs, raw outputs, final dumps)"""
-    real = Real(nsess, subsystem)
+async def run_real(nsess, program, subsystem=None, dumps=True, backend='dict', dump_each=None):
+    """executes the program; returns (extended program with resolved picks and inserted probe NOOPs, raw outputs, final dumps).
+    `dump_each`: a list that receives the dumps of all three mailboxes after every command"""
+    real = Real(nsess, subsystem, backend)
     await real.start()
     ext = []
     outs = []
@@ -349,6 +363,10 @@ async def run_real(nsess, program, subsystem=None, dumps=True):
                 raw = await real.do(op)
                 ext.append(op)
                 outs.append(raw)
+            if dump_each is not None:
+                while len(dump_each) < len(ext):
+                    dump_each.append(None)
+                dump_each[len(ext) - 1] = [await real.dump(b) for b in range(3)]
         final = []
         if dumps:
             for b in range(3):
@@ -390,7 +408,7 @@ def run_model(cases):
 
 
 # ---------------------------------------------------------------- generator
-def gen_program(r, nsess, length, profile):
+def gen_program(r, nsess, length, profile, uid_base=100):
     """profile: dict of op weights and switches"""
     w = dict(select=6, close=2, noop=10, check=2, append=14, store=18, fetch=10, expunge=8, uidexpunge=3, copy=6, move=4, search=5)
     w.update(profile.get('weights', {}))
@@ -428,20 +446,20 @@ def gen_program(r, nsess, length, profile):
                 count[b] += 1
         elif k == 'store':
             byuid = r.random() < 0.4
-            s = gen.seqset(r, hi, 100 if byuid else 0)
+            s = gen.seqset(r, hi, uid_base if byuid else 0)
             prog.append(['store', i, byuid, s, r.choice([0, 1, 1, 2]), gen_flags(r, profile, store=True), r.random() < 0.25])
         elif k == 'fetch':
             byuid = r.random() < 0.4
-            s = gen.seqset(r, hi, 100 if byuid else 0)
+            s = gen.seqset(r, hi, uid_base if byuid else 0)
             attrs = r.choice([['FLAGS'], ['UID', 'FLAGS'], ['BODY.PEEK[]'], ['BODY[]'], ['FLAGS', 'BODY[]'], ['RFC822.SIZE'], ['UID'], ['RFC822']])
             prog.append(['fetch', i, byuid, s, attrs])
         elif k == 'expunge':
             prog.append(['expunge', i, None])
         elif k == 'uidexpunge':
-            prog.append(['expunge', i, gen.seqset(r, hi, 100)])
+            prog.append(['expunge', i, gen.seqset(r, hi, uid_base)])
         elif k in ('copy', 'move'):
             byuid = r.random() < 0.4
-            s = gen.seqset(r, hi, 100 if byuid else 0)
+            s = gen.seqset(r, hi, uid_base if byuid else 0)
             dest = r.choice([0, 1, 2, 1, 2, 3]) if r.random() < 0.8 else box
             prog.append(['copy', i, k == 'move', byuid, s, dest, 0])
             if dest < 3:
@@ -449,7 +467,7 @@ def gen_program(r, nsess, length, profile):
         elif k == 'search':
             byuid = r.random() < 0.4
             seqs = gen.seqset(r, hi, 0) if r.random() < 0.4 else None
-            uids = gen.seqset(r, hi, 100) if r.random() < 0.3 else None
+            uids = gen.seqset(r, hi, uid_base) if r.random() < 0.3 else None
             tests = [[r.randint(0, 4), r.random() < 0.5] for _ in range(r.randint(0, 2))]
             prog.append(['search', i, byuid, seqs, uids, tests])
     if profile.get('final_noops', True):
